@@ -9,11 +9,23 @@ func (g *pgen) corpus(focus string, start int) []*ConvSpec {
 	if focus == "c07" {
 		return g.corpusC07(start)
 	}
-	if focus == "c05" || focus == "c04" {
+	if focus == "c04" {
+		return append(g.corpusSettings(start), g.corpusC04(start+3)...)
+	}
+	if focus == "c05" {
 		return g.corpusSettings(start)
 	}
 	if focus == "c03" {
 		return g.corpusC03(start)
+	}
+	if focus == "c10" {
+		return g.corpusC10(start)
+	}
+	if focus == "c08" {
+		return g.corpusC08(start)
+	}
+	if focus == "c12" {
+		return g.corpusC12(start)
 	}
 	if focus != "c11" {
 		return nil
@@ -151,5 +163,144 @@ func (g *pgen) corpusC03(start int) []*ConvSpec {
 	add([]Field{{"A", tPtr(i)}}, []Field{{"A", i}}, []string{"ignoreMissing"}, nil)
 	add([]Field{{"A", tSlice(i)}}, []Field{{"A", tSlice(i64)}}, []string{"ignoreMissing", "matchIgnoreCase"}, nil)
 	add([]Field{{"A", tMap(str, i)}}, []Field{{"A", tSlice(i)}}, nil, []string{"ignoreMissing"})
+	return out
+}
+
+// corpusC10: update methods whose source and target field kinds fall into different zero-value categories
+// (int -> *int, struct -> *struct, *int -> int, ...): the category that decides whether a zero-valued source field
+// leaves the target alone is the one of the source field.
+func (g *pgen) corpusC10(start int) []*ConvSpec {
+	var out []*ConvSpec
+	str, i := tBasic(bkString), tBasic(bkInt)
+	flagSets := [][]string{
+		{"update:ignoreZeroValueField"},
+		{"update:ignoreZeroValueField:basic"},
+		{"update:ignoreZeroValueField:struct"},
+		{"update:ignoreZeroValueField:nillable"},
+		{"update:ignoreZeroValueField:basic", "update:ignoreZeroValueField:nillable"},
+		{},
+	}
+	for k, fl := range flagSets {
+		for srcPtr := 0; srcPtr < 2; srcPtr++ {
+			ad := g.newNamed(1, &Ty{K: "struct", Pkg: 1, Fields: []Field{{"Street", str}, {"No", i}}}, "S")
+			adT := g.newNamed(1, &Ty{K: "struct", Pkg: 1, Fields: []Field{{"Street", str}, {"No", i}}}, "T")
+			s := g.newNamed(1, &Ty{K: "struct", Pkg: 1, Fields: []Field{{"Age", i}, {"Nick", str}, {"Work", tNamed(ad)}, {"P", tPtr(i)}, {"Q", tPtr(tNamed(ad))}, {"Tags", tSlice(str)}}}, "S")
+			t := g.newNamed(1, &Ty{K: "struct", Pkg: 1, Fields: []Field{{"Age", tPtr(i)}, {"Nick", tPtr(str)}, {"Work", tPtr(tNamed(adT))}, {"P", i}, {"Q", tNamed(adT)}, {"Tags", tSlice(str)}, {"Keep", str}}}, "T")
+			c := &ConvSpec{Name: fmt.Sprintf("C%d", start+len(out)), Lines: []string{"useZeroValueOnPointerInconsistency"}}
+			src := tNamed(s)
+			if srcPtr == 1 {
+				src = tPtr(src)
+			}
+			lines := append([]string{"update target", "ignore Keep"}, fl...)
+			if k%2 == 1 {
+				lines = append(lines, "skipCopySameType")
+			}
+			c.Methods = []*MethodSpec{{Name: "M0", Src: src, Tgt: tPtr(tNamed(t)), Update: true, Lines: lines, Fields: map[string]*fieldSet{"Keep": {Ignore: true}}}}
+			out = append(out, c)
+		}
+	}
+	return out
+}
+
+// corpusC08: one enum pair examined under disagreeing enum settings within one run: a method with "enum no" next to
+// a method with enums on, and a converter that excludes the type followed by one that does not. Whether a pair is
+// converted as an enum is decided per method from the settings in effect there.
+func (g *pgen) corpusC08(start int) []*ConvSpec {
+	var out []*ConvSpec
+	mkPair := func(prefix string) (*Ty, *Ty, *NamedDecl, *NamedDecl) {
+		s := g.newNamed(1, tBasic(bkInt), prefix)
+		t := g.newNamed(2, tBasic(bkInt), prefix+"T")
+		sd, td := g.p.Named[s], g.p.Named[t]
+		for k, suf := range []string{"A", "B", "C"} {
+			sd.Consts = append(sd.Consts, ConstDecl{Name: sd.Name + suf, Val: int64(k + 1)})
+			td.Consts = append(td.Consts, ConstDecl{Name: sd.Name + suf, Val: int64(10 * (k + 1))})
+		}
+		td.EnumOf = s
+		return tNamed(s), tNamed(t), sd, td
+	}
+	for _, unknown := range []string{"@panic", "@error", "@ignore"} {
+		// a. method-level "enum no" on the method that is processed first
+		s, t, sd, _ := mkPair("NC")
+		c := &ConvSpec{Name: fmt.Sprintf("C%d", start+len(out)), Custom: true, Lines: []string{"enum:unknown " + unknown}}
+		c.Methods = []*MethodSpec{
+			{Name: "M0", Src: s, Tgt: t, Lines: []string{"enum no"}, Fields: map[string]*fieldSet{}},
+			{Name: "M1", Src: s, Tgt: t, Err: unknown == "@error", Lines: []string{fmt.Sprintf("enum:map %sC %sA", sd.Name, sd.Name)}, Fields: map[string]*fieldSet{}},
+		}
+		out = append(out, c)
+		// b. a converter that excludes the source type, then one that does not
+		s2, t2, sd2, _ := mkPair("NX")
+		pat := "example.org/m/p:" + sd2.Name
+		c1 := &ConvSpec{Name: fmt.Sprintf("C%d", start+len(out)), Custom: true, Lines: []string{"enum:unknown " + unknown, "enum:exclude " + pat}, EnumExclude: []string{pat}}
+		c1.Methods = []*MethodSpec{{Name: "M0", Src: s2, Tgt: t2, Err: unknown == "@error", Fields: map[string]*fieldSet{}}}
+		out = append(out, c1)
+		c2 := &ConvSpec{Name: fmt.Sprintf("C%d", start+len(out)), Custom: true, Lines: []string{"enum:unknown " + unknown}}
+		c2.Methods = []*MethodSpec{{Name: "M0", Src: s2, Tgt: t2, Err: unknown == "@error", Fields: map[string]*fieldSet{}}}
+		out = append(out, c2)
+	}
+	return out
+}
+
+// corpusC04: map keys that carry references (pointer keys, struct keys with a pointer field, array keys of
+// pointers): comparable is not the same as plain value, the key is converted (copied) like any other position.
+func (g *pgen) corpusC04(start int) []*ConvSpec {
+	var out []*ConvSpec
+	str, i := tBasic(bkString), tBasic(bkInt)
+	node := g.newNamed(1, &Ty{K: "struct", Pkg: 1, Fields: []Field{{"Name", str}, {"N", tPtr(i)}}}, "S")
+	ref := g.newNamed(1, &Ty{K: "struct", Pkg: 1, Fields: []Field{{"Kind", str}, {"ID", tPtr(i)}}}, "S")
+	val := g.newNamed(1, &Ty{K: "struct", Pkg: 1, Fields: []Field{{"V", tSlice(i)}}}, "S")
+	shapes := []*Ty{
+		tMap(tPtr(tNamed(node)), tNamed(val)),
+		tMap(tNamed(ref), tNamed(val)),
+		tMap(tPtr(i), str),
+		tMap(tArr(2, tPtr(i)), i),
+	}
+	for k, sh := range shapes {
+		c := &ConvSpec{Name: fmt.Sprintf("C%d", start+len(out))}
+		c.Methods = []*MethodSpec{{Name: "M0", Src: sh, Tgt: sh, Fields: map[string]*fieldSet{}}}
+		out = append(out, c)
+		s := g.newNamed(1, &Ty{K: "struct", Pkg: 1, Fields: []Field{{"M", sh}, {"X", i}}}, "S")
+		t := g.newNamed(1, &Ty{K: "struct", Pkg: 1, Fields: []Field{{"M", sh}, {"X", i}}}, "T")
+		c2 := &ConvSpec{Name: fmt.Sprintf("C%d", start+len(out))}
+		c2.Methods = []*MethodSpec{{Name: "M0", Src: tNamed(s), Tgt: tPtr(tNamed(t)), Fields: map[string]*fieldSet{}}}
+		if k%2 == 0 {
+			out = append(out, c2)
+		}
+	}
+	return out
+}
+
+// corpusC12: a wrap mode written on the method against the one (or none) written on the converter; the generated
+// code of a declared method follows the method's value, a sibling without the line follows the converter's.
+func (g *pgen) corpusC12(start int) []*ConvSpec {
+	var out []*ConvSpec
+	combos := [][2]string{
+		{"", "wrapErrorsUsing example.org/m/werr"},
+		{"", "wrapErrors"},
+		{"wrapErrors", "wrapErrors no"},
+		{"wrapErrorsUsing example.org/m/werr", ""},
+		{"wrapErrors", ""},
+	}
+	for _, cb := range combos {
+		str := g.newNamed(1, tBasic(bkString), "Str")
+		stro := g.newNamed(1, tBasic(bkString), "StrO")
+		s := g.newNamed(1, &Ty{K: "struct", Pkg: 1, Fields: []Field{{"X", tNamed(str)}, {"L", tSlice(tNamed(str))}}}, "S")
+		t := g.newNamed(1, &Ty{K: "struct", Pkg: 1, Fields: []Field{{"X", tNamed(stro)}, {"L", tSlice(tNamed(stro))}}}, "T")
+		f := &FuncDecl{Idx: len(g.p.Funcs), Pkg: 1, Tgt: tNamed(stro), Err: true, Params: []FnParam{{Name: "src", T: tNamed(str), Role: 0}}}
+		f.Name = fmt.Sprintf("Ext%d", f.Idx)
+		g.p.Funcs = append(g.p.Funcs, f)
+		c := &ConvSpec{Name: fmt.Sprintf("C%d", start+len(out)), Custom: true, FuncNames: map[string]int{}}
+		if cb[0] != "" {
+			c.Lines = append(c.Lines, cb[0])
+		}
+		c.Lines = append(c.Lines, "extend "+f.Name)
+		c.Extend = []ExtSpec{{Text: f.Name, Exact: f.Idx}}
+		m0 := &MethodSpec{Name: "M0", Src: tNamed(s), Tgt: tNamed(t), Err: true, Fields: map[string]*fieldSet{}}
+		if cb[1] != "" {
+			m0.Lines = append(m0.Lines, cb[1])
+		}
+		m1 := &MethodSpec{Name: "M1", Src: tPtr(tNamed(s)), Tgt: tPtr(tNamed(t)), Err: true, Fields: map[string]*fieldSet{}}
+		c.Methods = []*MethodSpec{m0, m1}
+		out = append(out, c)
+	}
 	return out
 }
